@@ -1,3 +1,4 @@
+import Sparrow.Proofs.SetterGlueEquiv
 import Sparrow.Proofs.BakeGlueEquiv
 import Sparrow.Proofs.BakeKernelEquiv
 import Sparrow.Proofs.KernelCorollaries
@@ -207,3 +208,34 @@ theorem bakeGeometry_fft
   Sparrow.bakeGeometry_fft vis2 ffu P pc pn pp pa ptw hasM W nIn D T dIn dOut bidx brdf fnone B att junk i j d b hi hj
 
 end Sparrow.Props.C01.BakeGlue
+
+namespace Sparrow.Props.C01.SetterGlue
+open Sparrow Sparrow.Generated.SetterGlue
+
+/-- **in force on the listed walls**: after a successful call, every wall in `wall_indexes` carries the given table × π -/
+theorem setWallBrdf_in_force (rotate : (Nat → ℝ) → (Nat → ℝ) → C → C → C × C) (n : Nat) (wn wu : Nat → Nat → ℝ)
+    (st st' : MatState ℝ C) (ws : List Nat) (fq : Nat × (Nat → ℝ)) (T : Nat → Nat → Nat → ℝ) (inc out : C)
+    (ok1 ok2 : Bool) (e : Nat → Nat → Nat → Nat → ℝ)
+    (h : setWallBrdf rotate n wn wu st ws fq T inc out ok1 ok2 e = some st') (w : Nat) (hw : w ∈ ws) :
+    tableOf st' w = some (fun a b c => T a b c * Real.pi) :=
+  Sparrow.setWallBrdf_in_force rotate n wn wu st st' ws fq T inc out ok1 ok2 e h w hw
+
+/-- **every other wall keeps the material in force** (tables are appended, never overwritten; other indices untouched),
+    for an object whose direction arrays exist already and whose indices point into the list -/
+theorem setWallBrdf_others_keep (rotate : (Nat → ℝ) → (Nat → ℝ) → C → C → C × C) (n : Nat) (wn wu : Nat → Nat → ℝ)
+    (st st' : MatState ℝ C) (ws : List Nat) (fq : Nat × (Nat → ℝ)) (T : Nat → Nat → Nat → ℝ) (inc out : C)
+    (ok1 ok2 : Bool) (e : Nat → Nat → Nat → Nat → ℝ)
+    (h : setWallBrdf rotate n wn wu st ws fq T inc out ok1 ok2 e = some st')
+    (hinit : st.dirsIn.isNone = false) (hwf : matWF st) (w : Nat) (hw : w ∉ ws) :
+    tableOf st' w = tableOf st w :=
+  Sparrow.setWallBrdf_others_keep rotate n wn wu st st' ws fq T inc out ok1 ok2 e h hinit hwf w hw
+
+/-- the well-formedness the previous theorem asks for is established by the first call and kept by every later one -/
+theorem setWallBrdf_wf (rotate : (Nat → ℝ) → (Nat → ℝ) → C → C → C × C) (n : Nat) (wn wu : Nat → Nat → ℝ)
+    (st st' : MatState ℝ C) (ws : List Nat) (fq : Nat × (Nat → ℝ)) (T : Nat → Nat → Nat → ℝ) (inc out : C)
+    (ok1 ok2 : Bool) (e : Nat → Nat → Nat → Nat → ℝ)
+    (h : setWallBrdf rotate n wn wu st ws fq T inc out ok1 ok2 e = some st')
+    (hwf : st.dirsIn.isNone = true ∨ matWF st) : matWF st' :=
+  Sparrow.setWallBrdf_wf rotate n wn wu st st' ws fq T inc out ok1 ok2 e h hwf
+
+end Sparrow.Props.C01.SetterGlue
